@@ -36,6 +36,7 @@ ASSUMPTIONS = [
     'for HDF5 output the mapping covers every id, list columns are named '
     'taxonomy and int/float columns convert on every row',
 ]
+ANCHORS = ['Table.add_metadata', 'Table.del_metadata', 'Table._cast_metadata', 'MetadataMap.from_file', '_add_metadata']
 REQUIRED = ['add_metadata_calls', 'add_on_axis_without_metadata',
             'add_partial_overlap', 'add_overwrite_existing_key',
             'del_metadata_calls', 'del_on_jagged_metadata', 'del_keys_none',
